@@ -601,8 +601,7 @@ async def _(mpc):
     return r == (g ^ 7)
 
 
-@open_case('C26', 'C26-sectype-cache-ignores-sec-param', 'SecInt(l) created under a small sec_param is reused after sec_param is restored',
-           expected=True)
+@case('C26', 'SecInt(l) created under a small sec_param is not reused after sec_param is restored', '25d0ebb', expected=True)
 async def _(mpc):
     from mpyc import sectypes
     k = mpc.options.sec_param
@@ -685,7 +684,7 @@ async def _(mpc):
     return await mpc.transfer(None if r is None else int(r))
 
 
-@open_case('C21', 'C21-sqrt-even-degree-large-p', 'first sqrt() in GF(10007^2) needs few modular powers (not about p)', expected=True)
+@case('C21', 'first sqrt() in GF(10007^2) needs few modular powers (not about p)', 'f59a557', expected=True)
 async def _(mpc):
     from mpyc import finfields
     F = finfields.GF(finfields.find_irreducible(10007, 2))
